@@ -129,8 +129,8 @@ fn c14_effect_documented_names() {
         let r = RootMethod::parse(name);
         assert!(r.is_some(), "OBL:C14.effect.documented_resolves");
         if let Some((sel, eff)) = r {
-            assert!(sel == want, "OBL:C14.effect.selector");
             assert!(eff != MethodEffect::Read || pure_root(sel), "OBL:C14.effect.table");
+            assert!(sel == want, "OBL:C14.effect.selector");
             kani::cover!(eff == MethodEffect::Read, "COVER:root_read");
             kani::cover!(eff == MethodEffect::Mutating, "COVER:root_mutating");
         }
@@ -145,8 +145,8 @@ fn c14_effect_documented_names() {
         let r = DbMethod::parse(name);
         assert!(r.is_some(), "OBL:C14.effect.documented_resolves");
         if let Some((sel, eff)) = r {
-            assert!(sel == want, "OBL:C14.effect.selector");
             assert!(eff != MethodEffect::Read || pure_db(sel), "OBL:C14.effect.table");
+            assert!(sel == want, "OBL:C14.effect.selector");
             kani::cover!(eff == MethodEffect::Read, "COVER:db_read");
             kani::cover!(eff == MethodEffect::Mutating, "COVER:db_mutating");
         }
@@ -158,155 +158,109 @@ fn c14_effect_documented_names() {
     kani::cover!(true, "COVER:reach");
 }
 
-fn any_ascii<const L: usize>() -> [u8; L] {
-    let bytes: [u8; L] = kani::any();
+/// Longest documented name is 27 bytes ("collection.remove_extension"); one more
+/// byte so that "documented name + one extra byte" is in the domain too.
+const MAX_NAME: usize = 28;
+
+fn any_ascii_buffer() -> [u8; MAX_NAME] {
+    let bytes: [u8; MAX_NAME] = kani::any();
     let mut i = 0;
-    while i < L {
+    while i < MAX_NAME {
         kani::assume(bytes[i] < 128);
         i += 1;
     }
     bytes
 }
 
-/// EVERY ASCII name of exactly L bytes (length concrete, bytes symbolic) in the
-/// database scope: it resolves iff it is one of the 31 documented names (no
-/// alias, no undocumented method, no server-level method), then to the
-/// documented selector, and `Read` only for a pure query.
-fn db_any_name<const L: usize>() -> bool {
-    let bytes = any_ascii::<L>();
-    // ASCII bytes are valid UTF-8.
-    let s = unsafe { core::str::from_utf8_unchecked(&bytes[..]) };
-    let r = DbMethod::parse(s);
-    let mut documented: Option<DbMethod> = None;
-    let mut i = 0;
-    while i < DB_TABLE.len() {
-        if s == DB_TABLE[i].0 {
-            documented = Some(DB_TABLE[i].1);
+/// Database scope. EVERY ASCII name of `lo..=hi` bytes (the length is enumerated
+/// concretely, the bytes are symbolic): it resolves iff it is one of the 31
+/// documented names (no alias, no undocumented method, no server-level method),
+/// then to the documented selector, and `Read` only for a pure query.
+fn db_any_name(lo: usize, hi: usize) {
+    let bytes = any_ascii_buffer();
+    let mut resolved_some = false;
+    let mut unknown_some = false;
+    let mut len = lo;
+    while len <= hi {
+        // ASCII bytes are valid UTF-8.
+        let s = unsafe { core::str::from_utf8_unchecked(&bytes[..len]) };
+        let r = DbMethod::parse(s);
+        let mut documented: Option<DbMethod> = None;
+        let mut i = 0;
+        while i < DB_TABLE.len() {
+            if s == DB_TABLE[i].0 {
+                documented = Some(DB_TABLE[i].1);
+            }
+            i += 1;
         }
-        i += 1;
-    }
-    match r {
-        None => assert!(documented.is_none(), "OBL:C14.effect.documented_resolves"),
-        Some((sel, eff)) => {
-            assert!(documented.is_some(), "OBL:C14.effect.unknown_is_none");
-            assert!(documented.is_none() || documented == Some(sel), "OBL:C14.effect.selector");
-            assert!(eff != MethodEffect::Read || pure_db(sel), "OBL:C14.effect.table");
+        match r {
+            // (documented ==> resolves is discharged completely by c14_effect_documented_names)
+            None => unknown_some = true,
+            Some((sel, eff)) => {
+                assert!(eff != MethodEffect::Read || pure_db(sel), "OBL:C14.effect.read_implies_pure");
+                // resolves ==> `s` is the documented name of the selector it resolves to
+                assert!(documented == Some(sel), "OBL:C14.effect.unknown_is_none");
+                resolved_some = true;
+            }
         }
+        len += 1;
     }
-    r.is_some()
+    kani::cover!(resolved_some, "COVER:some_name_resolves");
+    kani::cover!(unknown_some && !resolved_some, "COVER:some_name_unknown");
+    kani::cover!(true, "COVER:reach");
 }
 
-fn root_any_name<const L: usize>() -> bool {
-    let bytes = any_ascii::<L>();
-    let s = unsafe { core::str::from_utf8_unchecked(&bytes[..]) };
-    let r = RootMethod::parse(s);
-    let mut documented: Option<RootMethod> = None;
-    let mut i = 0;
-    while i < ROOT_TABLE.len() {
-        if s == ROOT_TABLE[i].0 {
-            documented = Some(ROOT_TABLE[i].1);
+/// Root scope, same statement over the 8 documented root names.
+fn root_any_name(lo: usize, hi: usize) {
+    let bytes = any_ascii_buffer();
+    let mut resolved_some = false;
+    let mut unknown_some = false;
+    let mut len = lo;
+    while len <= hi {
+        let s = unsafe { core::str::from_utf8_unchecked(&bytes[..len]) };
+        let r = RootMethod::parse(s);
+        let mut documented: Option<RootMethod> = None;
+        let mut i = 0;
+        while i < ROOT_TABLE.len() {
+            if s == ROOT_TABLE[i].0 {
+                documented = Some(ROOT_TABLE[i].1);
+            }
+            i += 1;
         }
-        i += 1;
-    }
-    match r {
-        None => assert!(documented.is_none(), "OBL:C14.effect.documented_resolves"),
-        Some((sel, eff)) => {
-            assert!(documented.is_some(), "OBL:C14.effect.unknown_is_none");
-            assert!(documented.is_none() || documented == Some(sel), "OBL:C14.effect.selector");
-            assert!(eff != MethodEffect::Read || pure_root(sel), "OBL:C14.effect.table");
+        match r {
+            // (documented ==> resolves is discharged completely by c14_effect_documented_names)
+            None => unknown_some = true,
+            Some((sel, eff)) => {
+                assert!(eff != MethodEffect::Read || pure_root(sel), "OBL:C14.effect.read_implies_pure");
+                // resolves ==> `s` is the documented name of the selector it resolves to
+                assert!(documented == Some(sel), "OBL:C14.effect.unknown_is_none");
+                resolved_some = true;
+            }
         }
+        len += 1;
     }
-    r.is_some()
+    kani::cover!(resolved_some, "COVER:some_name_resolves");
+    kani::cover!(unknown_some && !resolved_some, "COVER:some_name_unknown");
+    kani::cover!(true, "COVER:reach");
 }
 
 /// Database scope, every ASCII name of 0..=14 bytes.
 #[kani::proof]
 #[kani::unwind(34)]
 fn c14_effect_db_any_name_short() {
-    let r0 = db_any_name::<0>();
-    let r1 = db_any_name::<1>();
-    let r2 = db_any_name::<2>();
-    let r3 = db_any_name::<3>();
-    let r4 = db_any_name::<4>();
-    let r5 = db_any_name::<5>();
-    let r6 = db_any_name::<6>();
-    let r7 = db_any_name::<7>();
-    let r8 = db_any_name::<8>();
-    let r9 = db_any_name::<9>();
-    let r10 = db_any_name::<10>();
-    let r11 = db_any_name::<11>();
-    let r12 = db_any_name::<12>();
-    let r13 = db_any_name::<13>();
-    let r14 = db_any_name::<14>();
-    // vacuity guards: "info" / "doc.search_ids" are reachable, so are unknown names
-    kani::cover!(r4 && r14, "COVER:some_name_resolves");
-    kani::cover!(!r0 && !r1 && !r2 && !r3 && !r4 && !r5 && !r6 && !r7 && !r8 && !r9 && !r10 && !r11 && !r12 && !r13 && !r14, "COVER:some_name_unknown");
-    kani::cover!(true, "COVER:reach");
+    db_any_name(0, 14);
 }
 
 /// Database scope, every ASCII name of 15..=28 bytes (longest documented name: 27).
 #[kani::proof]
 #[kani::unwind(34)]
 fn c14_effect_db_any_name_long() {
-    let r15 = db_any_name::<15>();
-    let r16 = db_any_name::<16>();
-    let r17 = db_any_name::<17>();
-    let r18 = db_any_name::<18>();
-    let r19 = db_any_name::<19>();
-    let r20 = db_any_name::<20>();
-    let r21 = db_any_name::<21>();
-    let r22 = db_any_name::<22>();
-    let r23 = db_any_name::<23>();
-    let r24 = db_any_name::<24>();
-    let r25 = db_any_name::<25>();
-    let r26 = db_any_name::<26>();
-    let r27 = db_any_name::<27>();
-    let r28 = db_any_name::<28>();
-    // vacuity guards: "collection.list" (15) and "collection.remove_extension" (27) are reachable
-    kani::cover!(r15 && r27, "COVER:some_name_resolves");
-    kani::cover!(!r15 && !r16 && !r17 && !r18 && !r19 && !r20 && !r21 && !r22 && !r23 && !r24 && !r25 && !r26 && !r27 && !r28, "COVER:some_name_unknown");
-    kani::cover!(true, "COVER:reach");
+    db_any_name(15, MAX_NAME);
 }
 
 /// Root scope, every ASCII name of 0..=28 bytes (longest documented name: 17).
 #[kani::proof]
 #[kani::unwind(34)]
 fn c14_effect_root_any_name() {
-    let r0 = root_any_name::<0>();
-    let r1 = root_any_name::<1>();
-    let r2 = root_any_name::<2>();
-    let r3 = root_any_name::<3>();
-    let r4 = root_any_name::<4>();
-    let r5 = root_any_name::<5>();
-    let r6 = root_any_name::<6>();
-    let r7 = root_any_name::<7>();
-    let r8 = root_any_name::<8>();
-    let r9 = root_any_name::<9>();
-    let r10 = root_any_name::<10>();
-    let r11 = root_any_name::<11>();
-    let r12 = root_any_name::<12>();
-    let r13 = root_any_name::<13>();
-    let r14 = root_any_name::<14>();
-    let r15 = root_any_name::<15>();
-    let r16 = root_any_name::<16>();
-    let r17 = root_any_name::<17>();
-    let r18 = root_any_name::<18>();
-    let r19 = root_any_name::<19>();
-    let r20 = root_any_name::<20>();
-    let r21 = root_any_name::<21>();
-    let r22 = root_any_name::<22>();
-    let r23 = root_any_name::<23>();
-    let r24 = root_any_name::<24>();
-    let r25 = root_any_name::<25>();
-    let r26 = root_any_name::<26>();
-    let r27 = root_any_name::<27>();
-    let r28 = root_any_name::<28>();
-    // vacuity guards: "info" (4) and "db.remove_api_key" (17) are reachable
-    kani::cover!(r4 && r17, "COVER:some_name_resolves");
-    kani::cover!(
-        !(r0 || r1 || r2 || r3 || r4 || r5 || r6 || r7 || r8 || r9 || r10 || r11 || r12 || r13 || r14
-            || r15 || r16 || r17 || r18 || r19 || r20 || r21 || r22 || r23 || r24 || r25 || r26 || r27 || r28),
-        "COVER:some_name_unknown"
-    );
-    kani::cover!(true, "COVER:reach");
+    root_any_name(0, MAX_NAME);
 }
